@@ -7,6 +7,7 @@ from common import case_line, parse_result
 from gen import bound_text, sides, wellformed_bound
 
 LEVEL = "proof"
+COUNTS = ["f"]        # modes of cases.count_thresholds (with the multi-count / oversized-record histories of cases.history_cases)
 BIG_IO = lambda a: "-m" in a        # which command lines of cases.rand_cli the large-input stream keeps
 
 
